@@ -72,6 +72,9 @@ pub fn generate(r: &mut Rng, focus: &str) -> RtScn {
         Ending::WriteShapes((n_direct..n).collect())
     } else if r.chance(1, 3) {
         Ending::FinDrop
+    } else if r.chance(1, 6) {
+        // the caller's program dies by a panic: the writer goes away through unwinding
+        Ending::PanicUnwind
     } else {
         Ending::Drop
     };
@@ -389,8 +392,9 @@ pub fn read_routes(ctx: &mut Ctx, prop_rt: &str, ty: i32, shp: &[u8], shx: Optio
 }
 
 /// C06, value level and type matrix, on a well-formed file of type `ty` with `n` records.
-pub fn check_c06(ctx: &mut Ctx, ty: i32, shp: &[u8], n: usize, rstack: StackCfg) {
-    let mk = || World::with_data(Plan::default(), shp.to_vec(), vec![], vec![]);
+pub fn check_c06(ctx: &mut Ctx, ty: i32, shp: &[u8], n: usize, rstack: StackCfg, rplan: &Plan) {
+    // typed and generic routes read through the same (must-be-masked) transfer schedule
+    let mk = || World::with_data(rplan.clone(), shp.to_vec(), vec![], vec![]);
     // generic read
     let w = mk();
     let Open::Ok(r) = open(&w, false, rstack) else { return };
@@ -597,7 +601,7 @@ pub fn execute(scn: &RtScn, ctx: &mut Ctx) {
     let expected: Vec<Geom> = written.iter().map(|g| g.normalised_for_read()).collect();
     read_routes(ctx, "C01", ty, &shp, shx.as_deref(), &expected, scn.rstack, &scn.rplan, &written);
     if dec.is_some() && !written.is_empty() {
-        check_c06(ctx, ty, &shp, written.len(), scn.rstack);
+        check_c06(ctx, ty, &shp, written.len(), scn.rstack, &scn.rplan);
     }
     if scn.path {
         path_routes(ctx, scn, ty, &expected, &shp, shx.as_deref());
@@ -635,7 +639,7 @@ fn path_routes(ctx: &mut Ctx, scn: &RtScn, ty: i32, expected: &[Geom], mem_shp: 
             }
         }
         match &scn.w.ending {
-            Ending::Drop => {}
+            Ending::Drop | Ending::PanicUnwind => {}
             Ending::FinDrop => w.finalize()?,
             Ending::WriteShapes(l) => {
                 for i in l {
